@@ -114,7 +114,7 @@ def gen(rng, i, tier):
                     a = next((aa for (kk, aa), al_ in ALIASES.items() if al_ == k and aa in al), a)
         v = rng.choice(VALUES[:3] if kind == "smchart" else VALUES)
         ops.append(rng.choice([["ag", a], ["as", a, v], ["ad", a], ["kg", k], ["ks", k, v], ["kd", k], ["in", k], ["it"]]))
-    return {"kind": kind, "start": "blank" if kind == "smchart" else rng.choice(["blank", "empty", "alias"]), "ops": ops}
+    return {"kind": kind, "start": "blank" if kind == "smchart" else rng.choice(["blank", "empty", "alias"]), "ops": ops, "ser_between": rng.random() < 0.35}
 
 
 def quick_n():
@@ -159,7 +159,14 @@ def apply_impl(o, op):
 def impl(c):
     o = start_state(c["kind"], c["start"])
     cls = type(o)
-    rs = [apply_impl(o, op) for op in c["ops"]]
+    rs = []
+    for op in c["ops"]:
+        rs.append(apply_impl(o, op))
+        if c.get("ser_between"):
+            try:                      # serializing in the middle of a history must leave the mapping as it was
+                str(o)
+            except Exception:
+                pass
     items = [[k, v] for k, v in OrderedDict.items(o)]
     # equality and serialisation see exactly the mapping's content
     fresh = cls()
